@@ -3,7 +3,9 @@ from common import COMMON_TRUST
 PROP = {
     "generated": ["StoreConsts"],
     "lean_modules": ["SwimVerif.Model.StoreKey", "SwimVerif.Model.Stores", "SwimVerif.Proofs.StoreKey",
-                     "SwimVerif.Proofs.Stores", "SwimVerif.Proofs.StoresHandover", "SwimVerif.Generated.StoreConsts"],
+                     "SwimVerif.Proofs.Stores", "SwimVerif.Proofs.StoresHandover", "SwimVerif.Proofs.StoresNeverLost",
+                     "SwimVerif.Proofs.StoresCrash", "SwimVerif.Proofs.StoresCrashRun", "SwimVerif.Proofs.StoresAlloc",
+                     "SwimVerif.Generated.StoreConsts"],
     "engines": [
         {"name": "rocks-random", "crate": "store", "bin": "sv-c13", "machine": "c13r", "features": [],
          "cases": {"quick": 1600, "thorough": 60000}, "min_shard": 100, "timeout": 1500},
@@ -28,15 +30,20 @@ PROP = {
                   "id_for/get/put/delete/update/remove/clear/read_map, ids are stable and collision free, the node "
                   "state survives restart and hand-over to a waiting instance, and for every sequence of opens, polls, "
                   "drops (cancelled opens included) and data ops a URI never has two running instances nor a running "
-                  "instance next to a handed-over state (every choreography of three handles up to depth 6 is also "
+                  "instance next to a handed-over state, and an entry marked in use always has a holder, i.e. no node "
+                  "state is ever lost (every choreography of three handles up to depth 6 is also "
                   "checked exhaustively against the real store); "
                   "RocksDB modelled as ordered byte maps refines "
-                  "the same specification under id < 2^56 with reopen points (prefix iteration exact). Tied to both "
+                  "the same specification under id < 2^56 with reopen points (prefix iteration exact), also for histories "
+                  "with any number of kills at any cut of the RocksDB writes of the op in flight: a kill leaves the "
+                  "state before or after that op, or (inside id_for of a new name) burns one id and loses nothing; "
+                  "id < 2^56 holds for every history of fewer than 2^56 events that passes ids returned by id_for. "
+                  "Tied to both "
                   "real stores by differential execution through swimos_api::persistence (public open_rocks_store; "
                   "in-memory store through a verif_hooks re-export) with adversarial names/keys and reopen anywhere.",
     "level_note": "RocksDB itself (ordered map semantics of put/get/delete/delete_range/merge/prefix iteration, WAL "
                   "durability) is trusted and sampled: reopen correspondence on every run, SIGKILL exploration in the "
-                  "thorough tier (support only). id_injective is false for adversarial names (F10, known finding). "
+                  "thorough tier (support only; `sv-c13 burn-probe` shows the burnt-id cut in the real store). id_injective is false for adversarial names (F10, known finding). "
                   "The 2^56 hypothesis of prefix iteration cannot be reached through id_for (ids are counter+1); the "
                   "rawid engine replays it with fabricated ids against the model only.",
     "trusted_base": COMMON_TRUST + [
